@@ -57,6 +57,16 @@ def upper (t : Tok) : Tok := t.map (fun c => if 97 ≤ c.toNat ∧ c.toNat ≤ 1
 /-- does strconv accept this token?  A parameter: the real answers come from the harness. -/
 abbrev NumOk := NumKind → Tok → Bool
 
+/-- `for len(v) > 0 { step }` with an iteration budget -/
+def iter (step : Env → Res) (v : Var) : Env → Nat → Res
+  | e, 0 => if (e v).length = 0 then .next e else .spin
+  | e, n + 1 =>
+    if (e v).length = 0 then .next e else
+    match step e with
+    | .next e' => iter step v e' n
+    | .cont e' => iter step v e' n
+    | r => r
+
 mutual
   def execS (ok : NumOk) : Stmt → Env → Nat → Res
     | .ifLen v c n thn els, e, f => if c.eval (e v).length n then execB ok thn e f else execB ok els e f
@@ -73,8 +83,11 @@ mutual
     | .switchTok v i cases dflt, e, f =>
       match (e v)[i]? with
       | none => .panic
-      | some t => execC ok cases dflt (upper t) e f
-    | .loop v body, e, f => execL ok v body e f f
+      | some t =>
+        match execC ok cases (upper t) e f with
+        | some r => r
+        | none => execB ok dflt e f
+    | .loop v body, e, f => iter (fun e' => execB ok body e' f) v e f
     | .rangeTail v k, e, _ => if k ≤ (e v).length then .next e else .panic
     | .ret b, _, _ => if b then .retOk else .retErr
     | .cont, e, _ => .cont e
@@ -84,18 +97,10 @@ mutual
       match execS ok s e f with
       | .next e' => execB ok b e' f
       | r => r
-  def execC (ok : NumOk) : Cases → Block → Tok → Env → Nat → Res
-    | .nil, dflt, _, e, f => execB ok dflt e f
-    | .cons lit b rest, dflt, t, e, f => if t = lit then execB ok b e f else execC ok rest dflt t e f
-  /-- `for len(v) > 0 { body }` with an iteration budget `n` -/
-  def execL (ok : NumOk) (v : Var) (body : Block) : Env → Nat → Nat → Res
-    | e, _, 0 => if (e v).length = 0 then .next e else .spin
-    | e, f, n + 1 =>
-      if (e v).length = 0 then .next e else
-      match execB ok body e f with
-      | .next e' => execL ok v body e' f n
-      | .cont e' => execL ok v body e' f n
-      | r => r
+  /-- the first case whose literal equals the (upper-cased) token; `none`: no case matched -/
+  def execC (ok : NumOk) : Cases → Tok → Env → Nat → Option Res
+    | .nil, _, _, _ => none
+    | .cons lit b rest, t, e, f => if t = lit then some (execB ok b e f) else execC ok rest t e f
 end
 
 /-- run a parser on an argument vector (Args[0] is the command name) -/
@@ -121,7 +126,7 @@ def AVal.refine (a : AVal) (c : Cmp) (n : Nat) : AVal :=
   | .lt => ⟨a.lo, some (match a.hi with | some h => min h (n - 1) | none => n - 1)⟩   -- (n = 0: caller checks emptiness)
   | .le => ⟨a.lo, some (match a.hi with | some h => min h n | none => n)⟩
   | .eq => ⟨max a.lo n, some (match a.hi with | some h => min h n | none => n)⟩
-  | .ne => a
+  | .ne => ⟨if a.lo = n then n + 1 else a.lo, a.hi⟩       -- the lower bound itself is excluded
   | .ge => ⟨max a.lo n, a.hi⟩
   | .gt => ⟨max a.lo (n + 1), a.hi⟩
 
@@ -178,13 +183,13 @@ mutual
       let nv : AVal := ⟨(a.vals v).lo - k, (a.vals v).hi.map (· - k)⟩
       match lv with
       | some l =>
-        if dst = l then (if v = l then some (some { (a.setVal dst nv) with shr := a.shr + k }) else none)
-        else some (some (a.setVal dst nv))
+        -- inside an option loop only the loop variable itself may be re-sliced
+        if dst = l ∧ v = l then some (some { (a.setVal dst nv) with shr := a.shr + k }) else none
       | none => some (some (a.setVal dst nv))
     | .parse v i _, a => if v ≥ NV then none else if (a.vals v).lo ≤ i then none else some (some a)
     | .switchTok v i cases dflt, a =>
       if v ≥ NV then none else
-      if (a.vals v).lo ≤ i then none else chkC lv cases dflt a
+      if (a.vals v).lo ≤ i then none else joinR (chkC lv cases a) (chkB lv dflt a)
     | .loop v body, a =>
       match lv with
       | some _ => none                                   -- no nested loops
@@ -211,9 +216,10 @@ mutual
       | none => none
       | some none => some none
       | some (some a') => chkB lv b a'
-  def chkC (lv : Option Var) : Cases → Block → AEnv → ARes
-    | .nil, dflt, a => chkB lv dflt a
-    | .cons _ b rest, dflt, a => joinR (chkB lv b a) (chkC lv rest dflt a)
+  /-- join over all case bodies (`some none` for no cases: nothing falls through from them) -/
+  def chkC (lv : Option Var) : Cases → AEnv → ARes
+    | .nil, _ => some none
+    | .cons _ b rest, a => joinR (chkB lv b a) (chkC lv rest a)
 end
 
 /-- the initial abstract state: cmd.Args has at least the command name -/
